@@ -105,6 +105,8 @@ Definition is_empty (s : str) : bool := match s with [] => true | _ => false end
 Section Ast.
 Variable rules : list prule.
 Variable fuel0 : nat.            (* the fuel of every traversal that starts with a fresh trace *)
+Variable lrf : bool.             (* check_expr as repaired for C06 (true) or as shipped (false) *)
+Variable tgf : bool.             (* filter_map_top_down descends into NodeTag (true) or not (false, as shipped) *)
 
 (* is_non_progressing(expr, rules, trace) *)
 Fixpoint nprog (fuel : nat) (trace : list str) (e : pnode) {struct fuel} : vres bool :=
@@ -192,21 +194,33 @@ Fixpoint check_expr (fuel : nat) (trace : list str) (e : pnode) {struct fuel} : 
            match rev trace with
            | [] => VPanic                                                     (* trace.last().unwrap() *)
            | lst :: _ =>
-               vtick (vbind (nfail fuel0 [lst] l) (fun b1 =>
-                      vbind (if b1 then VOk true 0 else nprog fuel0 [lst] l) (fun b2 =>
-                        if b2 then go r else go l)))
+               if lrf then
+                 (* check_expr(lhs).or_else(|| if is_non_failing(lhs) || is_non_progressing(lhs) { check_expr(rhs) } else { None }) *)
+                 vtick (vbind (go l) (fun x =>
+                        match x with
+                        | Some er => VOk (Some er) 0
+                        | None => vbind (nfail fuel0 [lst] l) (fun b1 =>
+                                  vbind (if b1 then VOk true 0 else nprog fuel0 [lst] l) (fun b2 =>
+                                    if b2 then go r else VOk None 0))
+                        end))
+               else
+                 vtick (vbind (nfail fuel0 [lst] l) (fun b1 =>
+                        vbind (if b1 then VOk true 0 else nprog fuel0 [lst] l) (fun b2 =>
+                          if b2 then go r else go l)))
            end
        | PChoice _ l r => vtick (vbind (go l) (fun x => match x with Some er => VOk (Some er) 0 | None => go r end))
        | PRep _ n | PRepOnce _ n | POpt _ n | PPosPred _ n | PNegPred _ n | PPush _ n => vtick (go n)
+       | PRepExact _ n _ | PRepMin _ n _ | PRepMax _ n _ | PRepMinMax _ n _ _ | PNodeTag _ n _ => if lrf then vtick (go n) else VOk None 1
        | _ => VOk None 1
        end) e
   end.
 
-(* ParserNode::filter_map_top_down: f on the node, then on the children it descends into (not into NodeTag) *)
+(* ParserNode::filter_map_top_down: f on the node, then on the children it descends into (into NodeTag only since the repair) *)
 Fixpoint top_down (e : pnode) : list pnode :=
   e :: match e with
        | PPosPred _ n | PNegPred _ n | PRep _ n | PRepOnce _ n | PRepExact _ n _ | PRepMin _ n _ | PRepMax _ n _
        | PRepMinMax _ n _ _ | POpt _ n | PPush _ n => top_down n
+       | PNodeTag _ n _ => if tgf then top_down n else []
        | PSeq _ l r | PChoice _ l r => top_down l ++ top_down r
        | _ => []
        end.
